@@ -6,7 +6,7 @@ from fractions import Fraction
 
 import numpy as np
 
-from common import enc_list, errname
+from common import enc_float, enc_list, errname
 
 PROP = "C04"
 THEOREMS = [
@@ -15,7 +15,13 @@ THEOREMS = [
     "Verif.C04.over_sound",
     "Verif.C04.over_complete",
     "Verif.C04.over_errors",
+    "Verif.C04.over_factors",
+    "Verif.C04.over_unordered_witness",
     "Verif.C04.by_spec",
+    "Verif.C04.by_all_full_windows",
+    "Verif.C04.by_by",
+    "Verif.C04.by_by_sum",
+    "Verif.C04.by_by_compat",
     "Verif.C04.by_ts_refused",
     "Verif.C04.by_window_spec",
     "Verif.C04.to_is_over",
@@ -26,6 +32,13 @@ THEOREMS = [
     "Verif.C04.to_eq_by",
     "Verif.C04.to_multiple_eq_by_dropLast",
     "Verif.C04.to_single_block_refused",
+    "Verif.C04.to_step_force",
+    "Verif.C04.to_step_safe_ceil",
+    "Verif.C04.to_step_ceil_largest_multiple",
+    "Verif.C04.to_answers_iff",
+    "Verif.C04.to_freq_is_to",
+    "Verif.C04.step_of_exact_freq",
+    "Verif.C04.to_freq_eq_by",
     "Verif.C04.to_window_spec",
     "Verif.C04.F3_witness",
     "Verif.C04.like_same_timestamps",
@@ -33,9 +46,19 @@ THEOREMS = [
     "Verif.C04.like_kept_spec",
     "Verif.C04.like_within_span",
     "Verif.C04.like_repaired_kept_spec",
+    "Verif.C04.like_windows_disjoint",
+    "Verif.C04.like_kept_inside_span",
+    "Verif.C04.like_spec",
+    "Verif.C04.like_overlap_witness",
+    "Verif.C04.isolatedGrowth_flag",
+    "Verif.C04.like_refusals",
+    "Verif.C04.like_answers_iff",
     "Verif.C04.repair_spec",
     "Verif.C04.arith_spec",
     "Verif.C04.arith_refused",
+    "Verif.C04.neg_scalar_spec",
+    "Verif.C04.arith_chain",
+    "Verif.C04.sub_eq_add_neg",
     "Verif.C04.F9_witness",
 ]
 RULE = (
@@ -56,13 +79,20 @@ RULE = (
     "finds every window from the timestamps, the model answers windows of it at both ends, beyond the end and around "
     "every round source offset: ops c04.bywin / c04.towin) + malformed stream (non-list or empty range lists, rows of wrong length, invalid where/method, "
     "upsampling, variable spacing without force, time-series by, wrong reference kinds, factor 0). Values are integers "
-    "or dyadic rationals (exact in double). Non-trivial: a successful answer with at least one output sample from a "
+    "or dyadic rationals (exact in double). Deepening round D: every second small-scope / random downsampling call leaves out "
+    "the arguments that have their default value; over / by / like are called a second time with a reduce callable that "
+    "records what it is handed (ops c04.overwins, c04.bywins, c04.likewins); self[a:b] for every pair of bounds around small "
+    "sources (c04.getitem); downsampled_by twice for n <= 14, k1, k2 <= 4 and random (c04.byby); references with every "
+    "pattern of 4 periods from {2, 3, 5}; frequencies as Python ints, 0, -0.0, nan, +-inf, negative, huge, tiny and "
+    "arbitrary random floats (the model converts the frequency itself, c04.tof), the conversion alone for every period "
+    "<= 300 (thorough 3000) with its neighbouring doubles (c04.step); negation, scalar operands on both sides, chains "
+    "(a op b) op c (c04.neg, c04.ariths, c04.arith3). Non-trivial: a successful answer with at least one output sample from a "
     "source that holds more samples than the output (so some window reduced several samples or samples were left "
     "out); by: k>=2 and at least one block; arithmetic: at least one sample; malformed stream: a refusal."
 )
 TRUSTED = [
     "values: implementation doubles are converted exactly and compared with the model's exact rational within 1e-9*max(1,|v|) (data are small integers / dyadics, so sums are exact and mean/median/division round once)",
-    "the integer target step int(1e9/frequency) is computed by the harness and handed to the model (the float division is outside the model)",
+    "the Hz -> ns conversion int(1e9/frequency) is done by the model itself, twice: on the same double (Lean Float = IEEE binary64 division, truncation toward zero) and exactly on the rational value of the double (targetOfFreqQ: round to nearest even at 53 bits, then truncation); the driver reports a mismatch between the two; for the long-recording op c04.towin the harness still checks int(1e9/f) == k*dt itself; quotients beyond 2^62 and subnormal quotients are outside the exact model",
     "numpy's treatment of reduce on an empty window in downsampled_like (nan for mean/median, 0 for sum, ValueError for min/max) is canonicalised by the harness, not modelled",
     "timestamps below 2^62 (np.int64 overflow is outside the model)",
     "the period of a downsampled_by result is read through the public Slice.sample_rate (documented data frequency, 1e9/period): round(1e9/rate), exact for periods below 2^51 ns; no private attribute of pylake is read by the harness",
@@ -488,9 +518,42 @@ def long_clause(case, ia):
 # ------------------------------------------------------------------ impl / ops
 
 
+def ref_kind_ts(ref):
+    return ref["kind"] == "ts"
+
+
+def isolated_growth(T):
+    """frame-rate changes of the reference are isolated: a period longer than its predecessor (the long frame of a
+    frame-rate change / the first frame of a slower rate) is not followed by a still longer one"""
+    d = [b - a for a, b in zip(T, T[1:])]
+    return all(not (d[j] > d[j - 1]) or d[j + 1] <= d[j] for j in range(1, len(d) - 1))
+
+
+def freq_value(rep):
+    """'int:<n>' -> Python int, anything else -> float (nan, inf, -inf, 0, -0.0, decimal literals)"""
+    return int(rep[4:]) if rep.startswith("int:") else float(rep)
+
+
 def _other_reduce(name):
     """a different reducer for the warm-up call on the same object (results must not depend on call history)"""
     return np.min if name == "max" else np.max
+
+
+def _kw(case, **kw):
+    """keyword arguments of a call; a case flagged `defaults` leaves out every argument whose value is the documented
+    default (reduce=np.mean, where="center", method="safe")"""
+    if case.get("defaults"):
+        if case.get("reduce") == "mean":
+            kw.pop("reduce", None)
+        if kw.get("where") == "center":
+            kw.pop("where", None)
+        if kw.get("method") == "safe":
+            kw.pop("method", None)
+    return kw
+
+
+def _rows(ts, seen):
+    return "[" + ";".join(f"{int(t)}|" + ",".join(enc_val(v) for v in w) for t, w in zip(ts, seen)) + "]"
 
 
 def _warm(fn):
@@ -520,8 +583,19 @@ def _call(case):
         else:
             raise ValueError(shape)
         _warm(lambda: s.downsampled_over(arg, reduce=_other_reduce(case["reduce"]), where=case["where"]))
-        r = s.downsampled_over(arg, reduce=np_reduce(case["reduce"]), where=case["where"])
-        return ["ok " + show(r.timestamps, r.data)]
+        r = s.downsampled_over(arg, **_kw(case, reduce=np_reduce(case["reduce"]), where=case["where"]))
+        out = ["ok " + show(r.timestamps, r.data)]
+        if in_model(case):
+            # reduce is an arbitrary callable: record what it is handed
+            seen = []
+
+            def recorder(x, axis=None):
+                seen.append(np.array(x, dtype=float).ravel())
+                return 0.0
+
+            r2 = s.downsampled_over(arg, reduce=recorder, where=case["where"])
+            out.append("ok " + _rows(r2.timestamps, seen) if len(seen) == len(r2.timestamps) else f"length-mismatch {len(seen)}")
+        return out
     if k in ("to", "toby"):
         s = build(case["src"])
         out = []
@@ -529,13 +603,13 @@ def _call(case):
         if k == "toby":
             _warm(lambda: s.downsampled_by(case["k"], reduce=_other_reduce(case["reduce"])))
         try:
-            r = s.downsampled_to(case["freq"], reduce=np_reduce(case["reduce"]), where=case["where"], method=case["method"])
+            r = s.downsampled_to(case["freq"], **_kw(case, reduce=np_reduce(case["reduce"]), where=case["where"], method=case["method"]))
             out.append("ok " + show(r.timestamps, r.data))
         except Exception as e:
             out.append(errname(e))
         if k == "toby":
             try:
-                r = s.downsampled_by(case["k"], reduce=np_reduce(case["reduce"]))
+                r = s.downsampled_by(case["k"], **_kw(case, reduce=np_reduce(case["reduce"])))
                 out.append(f"ok {period_of(r)} " + show(r.timestamps, r.data))
             except Exception as e:
                 out.append(errname(e))
@@ -543,14 +617,87 @@ def _call(case):
     if k == "by":
         s = build(case["src"])
         _warm(lambda: s.downsampled_by(case["k"], reduce=_other_reduce(case["reduce"])))
-        r = s.downsampled_by(case["k"], reduce=np_reduce(case["reduce"]))
-        return [f"ok {period_of(r)} " + show(r.timestamps, r.data)]
+        r = s.downsampled_by(case["k"], **_kw(case, reduce=np_reduce(case["reduce"])))
+        out = [f"ok {period_of(r)} " + show(r.timestamps, r.data)]
+        seen = []
+
+        def recorder2d(x, axis=None):
+            x = np.array(x, dtype=float)
+            seen.append((x, axis))
+            return np.zeros(x.shape[0])
+
+        s.downsampled_by(case["k"], reduce=recorder2d)
+        if len(seen) == 1 and seen[0][0].ndim == 2 and seen[0][1] in (1, -1):
+            out.append("ok [" + ";".join(",".join(enc_val(v) for v in row) for row in seen[0][0]) + "]")
+        else:
+            out.append(f"reduce-called {len(seen)} times / axis {[a for _, a in seen][:3]}")
+        return out
     if k == "like":
         s = build(case["src"])
         ref = build(case["ref"])
         _warm(lambda: s.downsampled_like(ref, reduce=_other_reduce(case["reduce"])))
-        a, b = s.downsampled_like(ref, reduce=np_reduce(case["reduce"]))
-        return ["ok " + show(a.timestamps, a.data) + " " + enc_list(b.timestamps)]
+        out = []
+        try:
+            a, b = s.downsampled_like(ref, **_kw(case, reduce=np_reduce(case["reduce"])))
+            out.append("ok " + show(a.timestamps, a.data) + " " + enc_list(b.timestamps))
+        except Exception as e:
+            out.append(errname(e))
+        # the windows themselves: a reduce callable that records what it is handed (and never fails on an empty one)
+        seen = []
+
+        def recorder(x, axis=None):
+            seen.append(np.array(x, dtype=float).ravel())
+            return 0.0
+
+        try:
+            a, _ = s.downsampled_like(ref, reduce=recorder)
+            ts = [int(t) for t in a.timestamps]
+            if len(ts) != len(seen):
+                out.append(f"length-mismatch {len(ts)} {len(seen)}")
+            else:
+                iso = "T" if ref_kind_ts(case["ref"]) and isolated_growth(case["ref"]["ts"]) else "F"
+                out.append(f"ok {iso} [" + ";".join(f"{t}|" + ",".join(enc_val(v) for v in w) for t, w in zip(ts, seen)) + "]")
+        except Exception as e:
+            out.append(errname(e))
+        return out if in_model(case) else out[:1]
+    if k == "neg":
+        r = -build(case["a"])
+        return ["ok " + show(r.timestamps, r.data)]
+    if k == "ariths":
+        a = build(case["a"])
+        x = float(fr(case["x"]))
+        if case.get("x_form") == "int" and x == int(x):
+            x = int(x)
+        f = {"add": lambda x, y: x + y, "sub": lambda x, y: x - y, "mul": lambda x, y: x * y, "div": lambda x, y: x / y}[case["operator"]]
+        r = f(x, a) if case["reversed"] else f(a, x)
+        return ["ok " + show(r.timestamps, r.data)]
+    if k == "arith3":
+        a, b, c = build(case["a"]), build(case["b"]), build(case["c"])
+        f1 = {"add": lambda x, y: x + y, "sub": lambda x, y: x - y, "mul": lambda x, y: x * y, "div": lambda x, y: x / y}[case["operator"]]
+        f2 = {"add": lambda x, y: x + y, "sub": lambda x, y: x - y, "mul": lambda x, y: x * y, "div": lambda x, y: x / y}[case["operator2"]]
+        r = f2(f1(a, b), c)
+        return ["ok " + show(r.timestamps, r.data)]
+    if k == "step":
+        # the conversion alone, in Python's own double arithmetic (the expression the code evaluates)
+        fv = freq_value(case["freq_repr"])
+        try:
+            t = str(int(1e9 / fv))
+        except Exception as e:
+            t = errname(e)
+        return [f"ok {t} {t}"]
+    if k == "byby":
+        s = build(case["src"])
+        _warm(lambda: s.downsampled_by(case["k1"], reduce=_other_reduce(case["reduce"])).downsampled_by(case["k2"], reduce=_other_reduce(case["reduce"])))
+        r = s.downsampled_by(case["k1"], reduce=np_reduce(case["reduce"])).downsampled_by(case["k2"], reduce=np_reduce(case["reduce"]))
+        return [f"ok {period_of(r)} " + show(r.timestamps, r.data)]
+    if k == "getitem":
+        s = build(case["src"])
+        r = s[case["lo"] : case["hi"]]
+        return ["ok " + show(r.timestamps, r.data)]
+    if k == "tofx":
+        s = build(case["src"])
+        r = s.downsampled_to(freq_value(case["freq_repr"]), reduce=np_reduce(case["reduce"]), where=case["where"], method=case["method"])
+        return ["ok " + show(r.timestamps, r.data)]
     if k == "arith":
         a = build(case["a"])
         b = build(case["b"])
@@ -592,17 +739,21 @@ def ops(case):
         return ["c04.outside-the-model"]
     if k == "over":
         rg = "[" + ";".join(f"{a},{b}" for a, b in case["ranges"]) + "]"
-        return [f"c04.over {src_tokens(case['src'])} {case['reduce']} {_tok(case['where'], ('center', 'left'))} {rg}"]
+        return [
+            f"c04.over {src_tokens(case['src'])} {case['reduce']} {_tok(case['where'], ('center', 'left'))} {rg}",
+            f"c04.overwins {src_tokens(case['src'])} {_tok(case['where'], ('center', 'left'))} {rg}",
+        ]
     if k in ("to", "toby"):
+        # the model converts the frequency itself (targetOfFreq: the same IEEE division and truncation)
         out = [
-            f"c04.to {src_tokens(case['src'])} {case['reduce']} {_tok(case['where'], ('center', 'left'))} "
-            f"{_tok(case['method'], ('safe', 'ceil', 'force'))} {target_of(case['freq'])}"
+            f"c04.tof {src_tokens(case['src'])} {case['reduce']} {_tok(case['where'], ('center', 'left'))} "
+            f"{_tok(case['method'], ('safe', 'ceil', 'force'))} {enc_float(case['freq'])}"
         ]
         if k == "toby":
             out.append(f"c04.by {src_tokens(case['src'])} {case['reduce']} {case['k']}")
         return out
     if k == "by":
-        return [f"c04.by {src_tokens(case['src'])} {case['reduce']} {case['k']}"]
+        return [f"c04.by {src_tokens(case['src'])} {case['reduce']} {case['k']}", f"c04.bywins {src_tokens(case['src'])} {case['k']}"]
     if k in ("bylong", "tobylong"):
         src = case["src"]
         wins = "[" + ";".join(f"{a},{b}" for a, b in long_windows(src["n"], case["k"])) + "]"
@@ -614,7 +765,28 @@ def ops(case):
             f"c04.bywin {rule_tokens(src)} {case['reduce']} {case['k']} {wins}",
         ]
     if k == "like":
-        return [f"c04.likepw {src_tokens(case['src'])} {case['reduce']} {src_tokens(case['ref'])}"]
+        return [
+            f"c04.likepw {src_tokens(case['src'])} {case['reduce']} {src_tokens(case['ref'])}",
+            f"c04.likewins {src_tokens(case['src'])} {src_tokens(case['ref'])}",
+        ]
+    if k == "neg":
+        return [f"c04.neg {src_tokens(case['a'])}"]
+    if k == "ariths":
+        x = fr(case["x"])
+        return [f"c04.ariths {case['operator']} {1 if case['reversed'] else 0} {x.numerator}/{x.denominator} {src_tokens(case['a'])}"]
+    if k == "arith3":
+        return [f"c04.arith3 {case['operator']} {case['operator2']} {src_tokens(case['a'])} {src_tokens(case['b'])} {src_tokens(case['c'])}"]
+    if k == "step":
+        return [f"c04.step {enc_float(float(freq_value(case['freq_repr'])))}"]
+    if k == "byby":
+        return [f"c04.byby {src_tokens(case['src'])} {case['reduce']} {case['k1']} {case['k2']}"]
+    if k == "getitem":
+        return [f"c04.getitem {src_tokens(case['src'])} {case['lo']} {case['hi']}"]
+    if k == "tofx":
+        return [
+            f"c04.tof {src_tokens(case['src'])} {case['reduce']} {_tok(case['where'], ('center', 'left'))} "
+            f"{_tok(case['method'], ('safe', 'ceil', 'force'))} {enc_float(float(freq_value(case['freq_repr'])))}"
+        ]
     if k == "arith":
         return [f"c04.arith {case['operator']} {src_tokens(case['a'])} {src_tokens(case['b'])}"]
     raise ValueError(k)
@@ -628,6 +800,14 @@ def split_answer(ans):
 
 
 def agree(case, i, ia, ma):
+    if case["op"] == "step":
+        ti, tm = ia.split(" "), ma.split(" ")
+        if len(ti) != 3 or len(tm) != 3:
+            return False
+        # the exact model has no nan / inf / overflow (they have no rational value): only the double's answer counts there
+        fv = freq_value(case["freq_repr"])
+        no_rational = isinstance(fv, float) and not math.isfinite(fv) or not ti[2].lstrip("-").isdigit() or abs(int(ti[2])) >= 2**62
+        return (ti[1] == tm[1] or tm[1] == "outside" and abs(int(ti[1])) >= 2**62) and (tm[2] == ti[2] or tm[2] == "outside" and no_rational)
     if not in_model(case):
         return True  # judged by the oracle only (documented refusal)
     if case["op"] == "tobylong" and ops(case)[i] == "c04.outside-the-model":
@@ -793,6 +973,41 @@ def oracle_by(case, ans):
     return None
 
 
+def oracle_byby(case, ans):
+    """downsampled_by(k1) then downsampled_by(k2), stage by stage from the property text: every stage reduces exactly
+    the samples of its input inside the window and stamps the midpoint of the first and last of them"""
+    src, k1, k2 = case["src"], case["k1"], case["k2"]
+    if src["kind"] != "cont":
+        return None if ans == "NotImplementedError" else f"by-by: time series must be refused, got {ans[:100]}"
+    if k1 <= 0 or k2 <= 0:
+        return None if not ans.startswith("ok") else f"by-by: factor 0 accepted: {ans[:100]}"
+    toks = split_answer(ans)
+    if toks is None:
+        return f"by-by: refused valid factors: {ans}"
+
+    def stage(samples, k):
+        out = []
+        for i in range(len(samples) // k):
+            blk = samples[i * k : (i + 1) * k]
+            out.append(((blk[0][0] + blk[-1][0]) // 2, py_reduce(case["reduce"], [v for _, v in blk])))
+        return out
+
+    exp = stage(stage(src_samples(src), k1), k2)
+    if toks[0] not in ("?", str(src["dt"] * k1 * k2)):
+        return f"by-by: period of the result is {toks[0]}, expected {src['dt'] * k1 * k2}"
+    got = parse_samples(toks[1])
+    if not samples_close(got, exp):
+        return f"by-by: expected {str([(t, str(v)) for t, v in exp])[:300]}, got {toks[1][:300]}"
+    # the windows of the composition are the windows of downsampled_by(k1*k2): same timestamps, and for sum / min /
+    # max / mean (equal blocks) the same values
+    direct = stage(src_samples(src), k1 * k2)
+    if [t for t, _ in direct] != [t for t, _ in got]:
+        return f"by-by: timestamps {[t for t, _ in got][:20]} differ from those of downsampled_by({k1 * k2}) {[t for t, _ in direct][:20]}"
+    if case["reduce"] != "median" and not samples_close(got, direct):
+        return f"by-by: {case['reduce']} over blocks of blocks differs from downsampled_by({k1 * k2})"
+    return None
+
+
 def like_deltas(T):
     """window lengths by the documentation: the reference's own period before each sample; the first sample takes
     the first period; a period longer than its predecessor (the long frame at a frame-rate change) defaults to the
@@ -864,6 +1079,44 @@ def oracle_like(case, ans):
     return None, tg
 
 
+def oracle_like_windows(case, ans):
+    """the arrays downsampled_like hands to `reduce` (recorded by a callable): sample j of the result is computed from
+    exactly the source samples in [T - delta, T), windows of isolated frame-rate changes are disjoint and inside the span"""
+    toks = split_answer(ans)
+    if toks is None:
+        return None  # refusals are judged on the first answer
+    src, T = case["src"], list(case["ref"]["ts"])
+    body = toks[1][1:-1]
+    rows = [r.split("|") for r in body.split(";")] if body else []
+    samples = src_samples(src)
+    start, stop = src_span(src)
+    delta = like_deltas(T)
+    iso = isolated_growth(T)
+    prev_end = None
+    for t, vals in rows:
+        t = int(t)
+        if t not in T:
+            return f"like: window recorded for {t}, which is not a reference timestamp"
+        j = T.index(t)
+        a, b = t - delta[j], t
+        exp = [x for tt, x in samples if a <= tt < b]
+        got = [fr(v) for v in vals.split(",")] if vals else []
+        if got != exp:
+            return f"like: reduce was handed {str([str(v) for v in got])[:200]} for the sample at {t}; the source samples in [{a}, {b}) are {str([str(v) for v in exp])[:200]}"
+        if iso:
+            if prev_end is not None and a < prev_end:
+                return f"like: window [{a}, {b}) overlaps the previous one ending at {prev_end} (isolated frame-rate changes)"
+            if a < start or b > stop or a > b:
+                return f"like: window [{a}, {b}) does not lie within the source span [{start}, {stop})"
+            prev_end = b
+    if iso:
+        # every reference sample whose window lies inside the span is represented
+        want = [t for t, d in zip(T, delta) if start <= t - d and t < stop]
+        if [int(t) for t, _ in rows] != want:
+            return f"like: reference samples with a window inside the span are {want[:20]}, returned {[int(t) for t, _ in rows][:20]}"
+    return None
+
+
 def oracle(case, ia):
     k = case["op"]
     ans = ia[0]
@@ -900,11 +1153,38 @@ def oracle(case, ia):
                 f"over: expected one sample per window inside the span with data: {str([(t, str(v)) for t, v in exp])[:300]}, "
                 f"implementation returned {toks[0][:300]}"
             )
+        if len(ia) > 1 and ia[1].startswith("ok "):
+            # what an arbitrary reduce callable is handed: exactly the source samples of every window inside the span
+            samples = src_samples(src)
+            want = []
+            for a_, b_ in ranges:
+                w = [(t, v) for t, v in samples if a_ <= t < b_]
+                if a_ >= span[0] and b_ <= span[1] and w:
+                    want.append(((w[0][0] + w[-1][0]) // 2 if case["where"] == "center" else a_, [v for _, v in w]))
+            body = ia[1][3:][1:-1]
+            rows = [r_.split("|") for r_ in body.split(";")] if body else []
+            have = [(int(t), [fr(v) for v in vs.split(",")] if vs else []) for t, vs in rows]
+            if have != want:
+                return f"over: reduce was handed {str(have)[:300]}, the windows inside the span hold {str(want)[:300]}"
+        elif len(ia) > 1:
+            return f"over: the call with a recording reduce callable gave {ia[1][:100]}"
         return None
     if k == "to":
         return oracle_to(case, ans)[0]
     if k == "by":
-        return oracle_by(case, ans)
+        c1 = oracle_by(case, ans)
+        if c1 or len(ia) < 2 or not ans.startswith("ok"):
+            return c1
+        if not ia[1].startswith("ok "):
+            return f"by: the call with a recording reduce callable gave {ia[1][:100]}"
+        vals = [fr(v) for v in case["src"]["vals"]]
+        kk = case["k"]
+        want = [vals[i * kk : (i + 1) * kk] for i in range(len(vals) // kk)]
+        body = ia[1][3:][1:-1]
+        have = [[fr(v) for v in row.split(",")] for row in body.split(";")] if body else []
+        if have != want:
+            return f"by: reduce(axis=1) was handed rows {str(have)[:300]}, the consecutive blocks are {str(want)[:300]}"
+        return None
     if k == "toby":
         c1 = oracle_to(case, ia[0])[0]
         if c1:
@@ -918,7 +1198,63 @@ def oracle(case, ia):
                 return f"to-vs-by: downsampled_to(f_s/{case['k']}) returned {t1[0][:200]} but downsampled_by({case['k']}) returned {t2[1][:200]}"
         return None
     if k == "like":
-        return oracle_like(case, ans)[0]
+        c1 = oracle_like(case, ans)[0]
+        if c1 or len(ia) < 2:
+            return c1
+        return oracle_like_windows(case, ia[1])
+    if k in ("neg", "ariths", "arith3"):
+        f = {"add": lambda x, y: x + y, "sub": lambda x, y: x - y, "mul": lambda x, y: x * y, "div": lambda x, y: x / y}
+        sa = src_samples(case["a"])
+        toks = split_answer(ans)
+        if k == "arith3":
+            sb, sc = src_samples(case["b"]), src_samples(case["c"])
+            same = [t for t, _ in sa] == [t for t, _ in sb] == [t for t, _ in sc]
+            if not same:
+                return None if ans == "RuntimeError" else f"arith: different timestamps must be refused with RuntimeError, got {ans[:100]}"
+            if toks is None:
+                return f"arith: identical timestamps refused with {ans}"
+            exp = [(t, f[case["operator2"]](f[case["operator"]](x, y), z)) for (t, x), (_, y), (_, z) in zip(sa, sb, sc)]
+        else:
+            if toks is None:
+                return f"arith: {k} refused with {ans}"
+            if k == "neg":
+                exp = [(t, -x) for t, x in sa]
+            else:
+                s_ = fr(case["x"])
+                exp = [(t, f[case["operator"]](s_, x) if case["reversed"] else f[case["operator"]](x, s_)) for t, x in sa]
+        if not samples_close(parse_samples(toks[0]), exp):
+            return f"arith ({k}): expected element-wise on the same timestamps {str([(t, str(v)) for t, v in exp])[:300]}, got {toks[0][:300]}"
+        return None
+    if k == "step":
+        # the documented conversion Hz -> ns: a positive finite frequency f gives the whole number of nanoseconds in 1/f
+        fv = freq_value(case["freq_repr"])
+        t = ans.split(" ")[1]
+        if isinstance(fv, float) and not math.isfinite(fv) or fv == 0:
+            return None
+        if fv > 0 and t.isdigit():
+            exact = Fraction(10**9) / Fraction(fv)
+            if abs(int(t) - exact) > 1 + exact / 2**52:
+                return f"step: int(1e9 / {fv!r}) = {t}, the period is {float(exact)!r} ns"
+        return None
+    if k == "byby":
+        return oracle_byby(case, ans)
+    if k == "getitem":
+        toks = split_answer(ans)
+        if toks is None:
+            return f"getitem: self[{case['lo']}:{case['hi']}] with integer bounds refused: {ans[:100]}"
+        exp = [(t, v) for t, v in src_samples(case["src"]) if case["lo"] <= t < case["hi"]]
+        if not samples_close(parse_samples(toks[0]), exp):
+            return f"getitem: self[{case['lo']}:{case['hi']}] must hold exactly the samples with a <= t < b: expected {str([(t, str(v)) for t, v in exp])[:300]}, got {toks[0][:300]}"
+        return None
+    if k == "tofx":
+        rep = case["freq_repr"]
+        fv = freq_value(rep)
+        bad = fv == 0 or fv < 0 or (isinstance(fv, float) and not math.isfinite(fv))
+        if not bad and not math.isfinite(1e9 / float(fv)):
+            bad = True
+        if bad:
+            return None if not ans.startswith("ok") else f"to: frequency {rep} accepted: {ans[:100]}"
+        return oracle_to(dict(case, freq=float(fv)), ans)[0]
     if k == "arith":
         a, b = case["a"], case["b"]
         if "tags" in (a["kind"], b["kind"]):
@@ -953,7 +1289,16 @@ def nontrivial(case, ia):
         return len(got) >= 1 and n_src >= 2 * 1 and n_src > len(got)
     if k == "by":
         return case["k"] >= 2 and len(parse_samples(toks[1])) >= 1
-    if k == "arith":
+    if k in ("arith", "neg", "ariths", "arith3"):
+        return len(parse_samples(toks[0])) >= 1
+    if k == "step":
+        return toks[0].isdigit() and int(toks[0]) >= 1
+    if k == "byby":
+        return case["k1"] >= 2 and case["k2"] >= 2 and len(parse_samples(toks[1])) >= 1
+    if k == "getitem":
+        got = len(parse_samples(toks[0]))
+        return 1 <= got < len(case["src"]["vals"])
+    if k == "tofx":
         return len(parse_samples(toks[0])) >= 1
     return False
 
@@ -961,6 +1306,11 @@ def nontrivial(case, ia):
 def tags(case, r):
     t = {"op": case["op"]}
     k = case["op"]
+    if k == "tofx":
+        fv = freq_value(case["freq_repr"])
+        if fv > 0 and math.isfinite(fv):  # an ordinary frequency given as a Python int: the input class of "to"
+            return tags(dict(case, op="to", freq=float(fv)), r)
+        return t
     if k == "tobylong":
         clause, dev = long_clause(case, r["impl"])
         src = case["src"]
@@ -1306,6 +1656,18 @@ def long_cases(tier, rng):
 
 
 def cases(tier, rng):
+    """every second small-scope / random case of a downsampling method is called with its default arguments left out
+    (reduce=np.mean, where="center", method="safe" are then the library's defaults, not values passed by the harness)"""
+    n = 0
+    for c in _cases(tier, rng):
+        if c.get("stream") in ("small-scope", "random") and c["op"] in ("over", "to", "toby", "by", "like"):
+            n += 1
+            if n % 2 == 0:
+                c["defaults"] = True
+        yield c
+
+
+def _cases(tier, rng):
     quick = tier == "quick"
     r_random = rng.fork("c04-random")  # drawn first: the random stream of a seed does not depend on the other streams
     # ---- corpus: finding inputs and minimised past disagreements
@@ -1318,6 +1680,10 @@ def cases(tier, rng):
     yield {"stream": "corpus", "op": "like", "src": cont(65, 5, list(range(20))), "ref": tser([0, 10, 20, 50, 80, 110], list(range(6))), "reduce": "mean"}
     yield {"stream": "corpus", "op": "like", "src": cont(0, 2, [1, 1, 2, 2, 3, 3, 4, 4, 5, 5, 5, 5, 5, 5, 6, 6, 6, 7, 7, 7, 8, 8, 8, 9, 9, 9]),
            "ref": tser([0, 4, 8, 12, 16, 34, 40, 46, 50, 54], [0, 1, 2, 3, 4, 6, 7, 8, 9, 10]), "reduce": "mean"}
+
+    # reference whose period grows twice in a row (10, 20, 30, 30): the repaired windows overlap (like_overlap_witness);
+    # correspondence and value clauses only
+    yield {"stream": "corpus", "op": "like", "src": cont(0, 5, list(range(20))), "ref": tser([0, 10, 30, 60, 90], list(range(5))), "reduce": "sum", "ref_class": "arbitrary"}
 
     # ---- malformed stream (documented refusals, never data)
     c8 = cont(100, 10, list(range(8)))
@@ -1350,6 +1716,9 @@ def cases(tier, rng):
         {"op": "to", "src": tser([5], [1]), "reduce": "mean", "where": "center", "method": "force", "freq": 1e9 / 10},
         {"op": "by", "src": t8, "reduce": "mean", "k": 2},
         {"op": "by", "src": c8, "reduce": "mean", "k": 0},
+        {"op": "byby", "src": c8, "reduce": "mean", "k1": 2, "k2": 0},
+        {"op": "byby", "src": c8, "reduce": "mean", "k1": 0, "k2": 2},
+        {"op": "byby", "src": t8, "reduce": "mean", "k1": 2, "k2": 2},
         {"op": "like", "src": c8, "ref": c8, "reduce": "mean"},
         {"op": "like", "src": t8, "ref": t8, "reduce": "mean"},
         {"op": "like", "src": c8, "ref": tags, "reduce": "mean"},
@@ -1364,6 +1733,9 @@ def cases(tier, rng):
         {"op": "arith", "operator": "sub", "a": t8, "b": c8},
         {"op": "arith", "operator": "div", "a": c8, "b": cont(100, 11, list(range(1, 9)))},
     ]
+    for rep in ("0", "-0.0", "nan", "inf", "-inf", "-2e7", "int:0", "int:-5", "1e300", "5e-324"):
+        for src_ in (c8, t8):
+            mal.append({"op": "tofx", "src": src_, "reduce": "mean", "where": "center", "method": "force", "freq_repr": rep})
     for m in mal:
         m = dict(m)
         m["stream"] = "malformed"
@@ -1435,6 +1807,52 @@ def cases(tier, rng):
             wins = list(itertools.product(edges, edges))
             for i, ws in enumerate(itertools.product(wins, repeat=3)):
                 yield {"stream": "small-scope", "op": "over", "src": src, "reduce": "median", "where": "center" if i % 2 else "left", "ranges": [list(w) for w in ws]}
+    # the Hz -> ns conversion alone: every period s <= 300 (quick) / 3000 from the frequencies 1e9/s, its two neighbours,
+    # 1e9/(s + 1/2), the integer frequencies round(1e9/s) +- 1, and the periods of real recordings
+    periods = list(range(1, 301 if quick else 3001)) + [12800, 64000, 12800 * 7, 10**6, 10**9, 2**40 + 1, 10**15 + 3, 2**53 - 1, 2**53 + 2, 2**61]
+    for s_ in periods:
+        fs = [1e9 / s_, float(np.nextafter(1e9 / s_, 0)), float(np.nextafter(1e9 / s_, np.inf)), 1e9 / (s_ + 0.5)]
+        reps = [repr(f_) for f_ in fs if f_ > 0]
+        if 10**9 // s_ >= 1:
+            reps += [f"int:{10**9 // s_}", f"int:{10**9 // s_ + 1}"]
+        for rep in reps:
+            yield {"stream": "small-scope", "op": "step", "freq_repr": rep}
+    for rep in ("0", "-0.0", "nan", "inf", "-inf", "-2e7", "int:0", "int:-5", "1e300", "5e-324", "1e-12", "3e-10", "0.3", "1e9", "1000000000.0000001", "2e9", "int:3", "int:7"):
+        yield {"stream": "small-scope", "op": "step", "freq_repr": rep}
+    # downsampled_by twice: every n <= 14 (quick 12), k1, k2 <= 4
+    idx = 0
+    for n in range(0, 13 if quick else 15):
+        for k1 in range(1, 5):
+            for k2 in range(1, 5):
+                for dt in (1, 3):
+                    idx += 1
+                    src = cont(7, dt, [((5 * i * i + 2 * i) % 13) - 5 for i in range(n)])
+                    yield {"stream": "small-scope", "op": "byby", "src": src, "reduce": REDUCERS[idx % 5], "k1": k1, "k2": k2}
+    # self[a:b] inside the loops: every pair of integer bounds in [start-2, stop+2] (theorem getitem_samples)
+    gi_sources = [cont(7, 1, [1, 2, 3]), cont(7, 3, [1, 2, 3, 4]), cont(7, 2, []), tser([3, 5, 6], [1, 2, 4]), tser([5], [1]), tser([3, 5, 5, 9], [1, 2, 4, 8]), tser([], [])]
+    for src in gi_sources:
+        span = src_span(src) or (0, 2)
+        edges = list(range(span[0] - 2, span[1] + 3))
+        for a_, b_ in itertools.product(edges, edges):
+            yield {"stream": "small-scope", "op": "getitem", "src": src, "lo": a_, "hi": b_}
+    # frequencies given as Python ints (1e9/f exact or truncated), every method
+    for fq in (10**9, 5 * 10**8, 3 * 10**8, 25 * 10**7, 2 * 10**8, 10**8, 7 * 10**7, 5 * 10**7):
+        for src in (cont(7, 1, list(range(11))), cont(7, 2, list(range(9))), cont(7, 5, list(range(7))), tser([0, 2, 4, 6, 8, 9, 15, 31], list(range(8)))):
+            for method in ("safe", "ceil", "force"):
+                yield {"stream": "small-scope", "op": "tofx", "src": src, "reduce": "sum", "where": "left" if fq % 3 else "center", "method": method, "freq_repr": f"int:{fq}"}
+    # like: references with every combination of 4 periods from {2, 3, 5} (81 period patterns: constant, isolated
+    # changes, double growth with sorted window starts) at three offsets: windows handed to reduce (c04.likewins)
+    for pat in itertools.product((2, 3, 5), repeat=4):
+        for off in (14, 20, 23):
+            T = [off]
+            for p_ in pat:
+                T.append(T[-1] + p_)
+            if not window_starts_sorted(T):
+                continue
+            cls = "regular" if isolated_growth(T) else "arbitrary"
+            if quick and (sum(pat) + off) % 2:
+                continue
+            yield {"stream": "small-scope", "op": "like", "src": cont(20, 1, list(range(1, 13))), "ref": tser(T, list(range(5))), "reduce": "sum", "ref_class": cls}
     # like: constant-rate references of period p at every offset against small continuous channels
     for n in ((6, 9) if quick else (4, 6, 9, 12)):
         for dt in (1, 2, 3):
@@ -1461,12 +1879,33 @@ def cases(tier, rng):
                 yield {"stream": "small-scope", "op": "arith", "operator": op, "a": a, "b": cont(10, 5, b["vals"][:-1])}
                 yield {"stream": "small-scope", "op": "arith", "operator": op, "a": ta, "b": tser(tb["ts"][:-1] + [tb["ts"][-1] + 1], tb["vals"])}
 
+    # negation, scalar operands (both sides, int and float scalars), chains of two operators
+    for n in (0, 1, 3):
+        a = cont(10, 5, [2 * i - 1 for i in range(n)])
+        ta = tser([10 + 7 * i * i for i in range(n)], [3 * i + 1 for i in range(n)])
+        for x_ in (a, ta):
+            yield {"stream": "small-scope", "op": "neg", "a": x_}
+            for op in ("add", "sub", "mul", "div"):
+                for rev in (False, True):
+                    if op == "div" and rev and x_ is a and n:
+                        continue  # would divide by a zero-free channel only: a's values are odd, fine; keep ta as well
+                    for sc, form in ((3, "int"), ("-5/2", "float"), (1, "float")):
+                        yield {"stream": "small-scope", "op": "ariths", "operator": op, "reversed": rev, "x": sc, "x_form": form, "a": x_}
+        b = cont(10, 5, [i + 2 for i in range(n)])
+        c_same = tser([10 + 5 * i for i in range(n)], [i * i + 1 for i in range(n)])
+        c_shift = cont(10, 6, [1] * n)
+        for op1 in ("add", "sub", "mul", "div"):
+            for op2 in ("add", "sub", "mul", "div"):
+                yield {"stream": "small-scope", "op": "arith3", "operator": op1, "operator2": op2, "a": a, "b": b, "c": c_same}
+                yield {"stream": "small-scope", "op": "arith3", "operator": op1, "operator2": op2, "a": a, "b": b, "c": c_shift}
+                yield {"stream": "small-scope", "op": "arith3", "operator": op1, "operator2": op2, "a": a, "b": c_shift, "c": b}
+
     # ---- random
     N = 4000 if quick else 150000
     r = r_random
     for i in range(N):
         sub = r.fork(i)
-        kind = sub.choice(["over", "over", "to", "to", "toby", "by", "like", "like", "like-arbitrary", "arith"])
+        kind = sub.choice(["over", "over", "to", "to", "toby", "by", "like", "like", "like-arbitrary", "arith", "getitem", "tof-any", "byby", "step"])
         red = sub.choice(REDUCERS)
         where = sub.choice(["center", "left"])
         base = {"stream": "random", "subseed": i}
@@ -1496,6 +1935,42 @@ def cases(tier, rng):
             if f is None:
                 continue
             base.update({"op": "to", "src": src, "reduce": red, "where": where, "method": method, "freq": f})
+        elif kind == "step":
+            fq = sub.loguniform(1e-6, 1e12)
+            if sub.chance(0.3):
+                fq = float(sub.randint(1, 10**9))
+            if sub.chance(0.1):
+                fq = -fq
+            yield {"stream": "random", "subseed": i, "op": "step", "freq_repr": repr(fq)}
+            continue
+        elif kind == "byby":
+            src = rand_cont(sub, nmax=60)
+            n = len(src["vals"])
+            k1 = sub.choice([1, 2, 3, 4, 5, 7, sub.randint(1, max(1, n // 2))])
+            k2 = sub.choice([1, 2, 3, 4, 5, max(1, n // k1), max(1, n // k1) + 1, sub.randint(1, max(1, n // k1))])
+            base.update({"op": "byby", "src": src, "reduce": red, "k1": k1, "k2": k2})
+        elif kind == "getitem":
+            src = rand_cont(sub) if sub.chance(0.5) else rand_ts(sub)
+            pts = boundary_points(src, sub)
+            base.update({"op": "getitem", "src": src, "lo": sub.choice(pts), "hi": sub.choice(pts)})
+        elif kind == "tof-any":
+            # any frequency (no search for one whose conversion hits an intended step): the model converts it itself
+            src = rand_cont(sub, nmax=30) if sub.chance(0.6) else rand_ts(sub, nmax=20)
+            span = src_span(src)
+            if span is None or span[1] - span[0] < 2:
+                continue
+            width = span[1] - span[0]
+            if sub.chance(0.5):
+                fq = sub.randint(max(1, 10**9 // (width + 2)), 10**9)
+                tgt = int(1e9 / fq)
+                rep = f"int:{fq}"
+            else:
+                fq = 1e9 / sub.uniform(max(1.0, src.get("dt", 1) * 0.9), width + 2.0)
+                tgt = int(1e9 / fq)
+                rep = repr(fq)
+            if tgt > 0 and width % tgt == 0 and sub.chance(0.9):
+                continue  # mostly stay out of the input class of the known finding F3
+            base.update({"op": "tofx", "src": src, "reduce": red, "where": where, "method": sub.choice(["force", "force", "ceil", "safe"]), "freq_repr": rep})
         elif kind == "toby":
             src = rand_cont(sub)
             n = len(src["vals"])
@@ -1558,6 +2033,19 @@ def cases(tier, rng):
             elif mut == 2 and b["kind"] == "cont":
                 b = cont(b["start"] + sub.choice([1, -1, b["dt"]]), b["dt"], vb)
             base.update({"op": "arith", "operator": op, "a": a, "b": b})
+            form = sub.randint(0, 5)
+            if form == 0:
+                base = {"stream": "random", "subseed": i, "op": "neg", "a": a}
+            elif form == 1:
+                xs = sub.choice([2, -3, "7/4", "-1/8", 10])
+                base = {"stream": "random", "subseed": i, "op": "ariths", "operator": op, "reversed": sub.chance(0.5), "x": xs,
+                        "x_form": sub.choice(["int", "float"]), "a": dict(a, vals=[v if fr(v) != 0 else 3 for v in a["vals"]])}
+            elif form == 2 and mut > 2:
+                vc = [v if fr(v) != 0 else 3 for v in rand_vals(sub, len(a["vals"]))]
+                c3 = tser(a_ts, vc) if sub.chance(0.5) or a["kind"] != "cont" else cont(a["start"], a["dt"], vc)
+                if sub.chance(0.25) and a_ts:
+                    c3 = tser(a_ts[:-1] + [a_ts[-1] + 1], vc)
+                base.update({"op": "arith3", "operator2": sub.choice(["add", "sub", "mul", "div"]), "c": c3})
         yield base
 
 
@@ -1569,6 +2057,9 @@ def extra_coverage(results):
     longest = 0
     for r in results:
         c = r["case"]
+        if c["op"] == "step":
+            kinds["step"] = kinds.get("step", 0) + 1
+            continue
         key = c["op"] + "/" + (c.get("src") or c.get("a"))["kind"]
         kinds[key] = kinds.get(key, 0) + 1
         a = r["impl"][0]
@@ -1585,7 +2076,49 @@ def extra_coverage(results):
             outside += 1
         if c["op"] in ("to", "toby", "tobylong") and r["clause"]:
             f3 += 1
+    like_cls = {"isolated frame-rate changes": 0, "period grows twice in a row": 0, "refused": 0}
+    like_windows = {"recorded": 0, "empty": 0, "one sample": 0, "several samples": 0}
+    freq_forms = {}
+    getitem_sizes = {"empty result": 0, "part of the source": 0, "whole source": 0}
+    for r in results:
+        c = r["case"]
+        if c["op"] == "like" and len(r["impl"]) > 1:
+            toks = split_answer(r["impl"][1])
+            if toks is None:
+                like_cls["refused"] += 1
+            else:
+                like_cls["isolated frame-rate changes" if toks[0] == "T" else "period grows twice in a row"] += 1
+                body = toks[1][1:-1]
+                for row in (body.split(";") if body else []):
+                    vals = row.split("|")[1]
+                    nv = len(vals.split(",")) if vals else 0
+                    like_windows["recorded"] += 1
+                    like_windows["empty" if nv == 0 else "one sample" if nv == 1 else "several samples"] += 1
+        if c["op"] == "tofx":
+            rep = c["freq_repr"]
+            form = "python int" if rep.startswith("int:") else "float"
+            a0 = r["impl"][0]
+            key = form + " -> " + ("ok" if a0.startswith("ok") else a0)
+            freq_forms[key] = freq_forms.get(key, 0) + 1
+        if c["op"] == "getitem":
+            toks = split_answer(r["impl"][0])
+            if toks is not None:
+                g = len(parse_samples(toks[0]))
+                n = len(c["src"]["vals"])
+                getitem_sizes["empty result" if g == 0 else "whole source" if g == n else "part of the source"] += 1
+    defaults_used = {"reduce": 0, "where": 0, "method": 0}
+    for r in results:
+        c = r["case"]
+        if c.get("defaults"):
+            defaults_used["reduce"] += c.get("reduce") == "mean"
+            defaults_used["where"] += c.get("where") == "center"
+            defaults_used["method"] += c.get("method") == "safe"
     return {
+        "calls_with_a_default_argument_left_out": defaults_used,
+        "like_reference_classes (flag printed by the model = IsolatedGrowth)": like_cls,
+        "like_windows_handed_to_reduce": like_windows,
+        "frequency_forms_converted_by_the_model": freq_forms,
+        "getitem_results": getitem_sizes,
         "case_kinds": kinds,
         "error_kinds": errs,
         "source_sizes": sizes,
